@@ -573,3 +573,36 @@ def run(tier, seed, replay=None):
     r.phase("P4_correspondence", cases=len(cases), differing=len(bad))
     r.phase("P5_oracle", failing=sum(1 for o in oracle if o != "ok"))
     return r.finish()
+
+
+MANIFEST = {
+    "category": "proof",
+    "text": ("Coq theorems (no axioms, every hash a universally quantified function) over an executable model of strands: worldline "
+             "state as a slot->value map, patch ops as guarded constant writes, provenance entries with declared in/out slots, "
+             "fork_strand (prefix copy rewritten to the child lane, fresh heads, basis pinned to lane/tick/commit id/boundary hash, "
+             "restore on error), live_basis_report (closed footprint vs parent writes), plan (pure fold with simulated state, "
+             "blocked-reason latch, overlap_slots_are_clean, both plural policies) and settle (one appended entry per decision, "
+             "partial restore on failure, shell last). Proved: fork_prefix, fork_basis_pinned, fork_heads_fresh, fork_atomic, "
+             "lane_isolation (+ the well-formedness it needs is invariant), plan_pure_deterministic (the plan depends on the strand "
+             "record, two frontiers and two histories only), settle_atomic (any error => runtime and provenance unchanged), "
+             "never_overwrite (a slot the parent wrote since the fork keeps the parent's value, for strand patches that declare "
+             "their writes to such slots), import_takes_strand_values, parent_stays_verifiable (the extended parent history replays "
+             "with recorded roots to the settled state), coordinate coherence invariant; non-vacuity example with a disjoint import, "
+             "a read overlap revalidated clean, a write-overlap conflict and an injected late failure. Tie: generated scenarios "
+             "(forks at every tick and past the end, interleaved parent/strand ticks with disjoint / read-overlapping / "
+             "equal-write / different-write / obstructing footprints, both plural policies, late shell failure injected through "
+             "the public API, chained strands, support pins, malformed requests, plus an exhaustive one-round universe) run on the "
+             "real WorldlineRuntime/ProvenanceService/Engine and on the model fed with the patches the implementation committed; "
+             "fork results, basis reports, plans, settlement results and post-states must agree, and the harness checks the "
+             "property itself on the implementation (prefix equality of commit ids/roots/patches, no shared heads, lane isolation "
+             "by fingerprints, plan twice identical and side-effect free, failed fork/settle leaves everything unchanged, parent "
+             "slots written or changed since the fork keep their value, imports take the strand's values, parent replays from "
+             "its own provenance)."),
+    "note": ("PARTIAL: braid shell bodies and digests, member blinding, retention posture and support pins are exercised (shell "
+             "law, rollback of shells and plural bindings, pin coordinate) but not modelled; the only settlement failure that can be "
+             "injected through the public API is the final shell append (after all entries were appended); honest_on/honest_slots "
+             "is an explicit hypothesis of never_overwrite (ingress event nodes are written outside declared slots; they are "
+             "unique per intent and the oracle also checks actually-changed slots). Trusted: Coq kernel + vm_compute; python "
+             "generator/renderer; harness c15.rs abstraction (GraphStore -> slot/value map with 40-bit value hashes, WarpOp -> "
+             "guarded write; DeleteNode isolation and portal/instance ops are outside the op abstraction and flagged if met)."),
+}
